@@ -29,7 +29,7 @@ type FuncResult struct {
 func (w *World) newExec(fn *ssa.Function, ct *Contract, name string, mode execMode) *Exec {
 	return &Exec{w: w, root: fn, rootName: name, contract: ct, decls: map[string]string{}, regSorts: map[string]string{},
 		obls: map[string]*Obligation{}, maxPaths: 4000, inlined: map[string]bool{}, externs: map[string]bool{},
-		entryVals: map[string]Val{}, mode: mode, siteCtr: map[string]int{}, usedContracts: map[string]bool{},
+		entryVals: map[string]Val{}, mode: mode, tagTypes: tagTypeTable, siteCtr: map[string]int{}, usedContracts: map[string]bool{},
 		usedRegex: map[string]bool{}, funs: map[string]string{}, assertCtr: map[string]int{}}
 }
 
@@ -75,6 +75,8 @@ func (w *World) verifyFunc(fn *ssa.Function, ct *Contract, mode execMode) *FuncR
 			_ = et
 			c := ex.newCell(fv.Name(), derefType(fv.Type()))
 			st.cells[c.ID] = st.freshVal("fv_"+fv.Name(), derefType(fv.Type()))
+			ex.entryVals[fv.Name()] = st.cells[c.ID]
+			ex.recordInputs(st, fv.Name(), st.cells[c.ID])
 			binds = append(binds, Val{K: KCellPtr, Typ: fv.Type(), Cell: c})
 		}
 		ex.initGhost(st)
@@ -188,6 +190,9 @@ func (ex *Exec) frameCheck(st *State, ct *Contract, e *env) {
 		if now == "" || now == was {
 			continue
 		}
+		if ex.mode.concurrency && ex.isGuardedMapRegion(r) {
+			continue // changed by the environment havoc at lock acquisition, not by this function
+		}
 		var refs []string
 		whole := false
 		for _, t := range targets {
@@ -238,6 +243,8 @@ func (ex *Exec) initGhost(st *State) {
 		"G!sentlen": ii, "G!recvlen": ii, "G!sentstamp": arr("Int", ii), "G!closed": arr("Int", "Bool"), "G!cancelled": arr("Int", "Bool"),
 		"G!chancap": ii, "G!clock": "Int", "G!dyn": ii, "G!wraps": ii, "G!jsonof": ii, "I!String": arr("Int", "String"), "I!Int": ii, "I!Bool": arr("Int", "Bool"),
 		"G!donechan": ii, "G!ctxerr": ii, "G!out!#src": ii, "G!out!#by": ii,
+		"G!cb#len": "Int", "G!cb!ret": ii, "G!cb!fn": ii, "G!cb!arg0$Int": ii, "G!cb!arg1$String": arr("Int", "String"),
+		"G!lastrecv": "Int", "G!recvd!String": arr("Int", arr("Int", "String")), "G!recvd!Int": arr("Int", ii), "G!tickperiod": ii, "G!tickerof": ii, "G!rdlast": "Int", "G!rdcount": "Int", "G!rdrec": ii, "G!rdpos": ii, "G!rdstream": arr("Int", arr("Int", "String")), "G!rdlasterr": ii, "G!rdsrc": ii,
 	} {
 		st.region(name, sort)
 	}
@@ -260,6 +267,19 @@ func (ex *Exec) initGhost(st *State) {
 	}
 	for name, sort := range ex.w.ghostVars {
 		st.region("G!"+name, sort)
+	}
+	// acquire-time snapshots of every guarded map type
+	for _, mt := range ex.w.guardedMapTypes() {
+		_, ds := mapRegions(mt)
+		st.region("G!snap!"+typeName(mt)+"!dom", ds)
+		for _, lf := range leaves(mt.Elem()) {
+			_, vs := mapValRegion(mt, lf)
+			sv := "G!snap!" + typeName(mt) + "!val"
+			if lf.path != "" {
+				sv += "!" + lf.path
+			}
+			st.region(sv, vs)
+		}
 	}
 }
 
@@ -301,6 +321,15 @@ func (ex *Exec) requireLocks(st *State, n *node, e *env) bool {
 		st.locks = append(st.locks, lockTag(derefType(obj.Typ), n.args[2].name)+"@"+obj.T)
 		ex.preLocks = len(st.locks)
 		return true
+	}
+	return false
+}
+
+func (ex *Exec) isGuardedMapRegion(r string) bool {
+	for _, mt := range ex.w.guardedMapTypes() {
+		if strings.HasPrefix(r, "M!"+typeName(mt)+"!") {
+			return true
+		}
 	}
 	return false
 }
